@@ -65,9 +65,9 @@ Print Assumptions c11_flip_bit_xor.
 
 (* ---- statements about the C code AS TRANSLATED on this run (Gen/Sites.v: every guard, declaration, conversion and call argument with the
    types clang computed; tools/sites.py), for every memory m and every environment: tie #1 extended from constants to arithmetic and
-   control flow.  Vocabulary in Spec/CodeSpec.v, evaluator and interpreter in Base/CExpr.v, proofs in Proofs/SitesProofs.v. ---- *)
+   control flow.  Vocabulary in Spec/CodeSpec.v, evaluator and interpreter in Base/CExpr.v, proofs in Proofs/SitesMisc.v. ---- *)
 From Coq Require Import String.
-From LW Require Import Base.CExpr Gen.Sites Spec.CodeSpec Proofs.SitesProofs.
+From LW Require Import Base.CExpr Gen.Sites Spec.CodeSpec Proofs.SitesMisc.
 Local Open Scope string_scope.
 Local Open Scope Z_scope.
 
@@ -114,3 +114,40 @@ Theorem c11_code_crc32_nonpositive_length : forall m start n rho,
   observe (exec 10 m (upd (upd rho "message" start) "message_len" n) [] body_libwifi_crc32) = Some (Some 0, []).
 Proof. exact code_crc32_nonpositive_length_mem. Qed.
 Print Assumptions c11_code_crc32_nonpositive_length.
+
+(* the whole of libwifi_frame_verify and libwifi_calculate_fcs as translated: too-short frames answer 0 reading nothing; otherwise the
+   received FCS is LOADED from the last four octets (frame + (len - 4), in size_t), the checksum is asked over the len - 4 octets
+   before them, and the answer is 1 exactly when the two are equal.  With the callee's answer being what c11_code_crc32_refines_model
+   gives for libwifi_crc32 on those octets, that is the property. *)
+From LW Require Import Proofs.CodeVerify.
+
+Theorem c11_code_frame_verify_exec : forall m rho frame len o,
+  0 < frame -> 0 <= len -> frame + len < 2 ^ 62 -> 0 <= o < 2 ^ 32 ->
+  (4 <= len -> load_le m (frame + (len - 4)) (Z.to_nat (32 / 8)) = Some o) ->
+  let rho0 := upd (upd rho "frame" frame) "frame_len" len in
+  let c := wrap u32 (rho "ret:libwifi_calculate_fcs") in
+  observe (exec 30 m rho0 [] body_libwifi_frame_verify) =
+    if len <? 4 then Some (Some 0, [])
+    else Some (Some (b2z (c =? o)),
+               [("memcpy", [wrap u64 (rho "&oCRC"); frame + (len - 4); 4]); ("libwifi_calculate_fcs", [frame; len - 4])]).
+Proof. exact code_frame_verify_exec. Qed.
+Print Assumptions c11_code_frame_verify_exec.
+
+Theorem c11_code_calculate_fcs_exec : forall m rho frame n,
+  0 <= frame < 2 ^ 62 -> 0 <= n < 2 ^ 31 ->
+  let rho0 := upd (upd rho "frame" frame) "frame_len" n in
+  observe (exec 10 m rho0 [] body_libwifi_calculate_fcs) =
+    Some (Some (wrap u32 (rho "ret:libwifi_crc32")), [("libwifi_crc32", [frame; n])]).
+Proof. exact code_calculate_fcs_exec. Qed.
+Print Assumptions c11_code_calculate_fcs_exec.
+
+Theorem c11_code_frame_verify_is_fcs_check : forall buf frame rho,
+  wfbytes buf -> 0 < frame -> frame + zlen buf < 2 ^ 62 -> 4 <= zlen buf < 2 ^ 31 ->
+  rho "ret:libwifi_calculate_fcs" = crc32_list (zfirstn (zlen buf - 4) buf) ->
+  0 <= crc32_list (zfirstn (zlen buf - 4) buf) < 2 ^ 32 ->
+  let o := znth buf (zlen buf - 4) + 256 * (znth buf (zlen buf - 3) + 256 * (znth buf (zlen buf - 2) + 256 * znth buf (zlen buf - 1))) in
+  exists tr,
+  observe (exec 30 (mem_at frame buf) (upd (upd rho "frame" frame) "frame_len" (zlen buf)) [] body_libwifi_frame_verify) =
+    Some (Some (b2z (crc32_list (zfirstn (zlen buf - 4) buf) =? o)), tr).
+Proof. exact code_frame_verify_is_fcs_check. Qed.
+Print Assumptions c11_code_frame_verify_is_fcs_check.
